@@ -23,6 +23,9 @@ Opt == Numerals \cup {<<>>}
 Iota(n) == JArr([i \in 1..n |-> JInt(i - 1)])
 NumTexts == {<<cAT, cLBRACKET>> \o n \o <<cRBRACKET>> : n \in Numerals}
             \cup {<<cAT, cLBRACKET>> \o a \o <<cCOLON>> \o b \o <<cCOLON>> \o c \o <<cRBRACKET>> : a \in Opt, b \in Opt, c \in Opt}
+            \* ... and with something projected through the slice (a second walk over the selected positions)
+            \cup {<<cAT, cLBRACKET>> \o a \o <<cCOLON>> \o b \o <<cCOLON>> \o c \o <<cRBRACKET, cDOT, 97>> : a \in Opt, b \in Opt, c \in Opt}
+            \cup {<<cAT, cLBRACKET>> \o a \o <<cCOLON>> \o b \o <<cCOLON>> \o c \o <<cRBRACKET, cLBRACKET, 48, cRBRACKET>> : a \in {<<>>, <<49>>, <<45, 49>>}, b \in Opt, c \in Opt}
 NumCases(zzdummy) == LET ts == SetToSeq(NumTexts) ps == SetToSeq({<<i, n>> : i \in DOMAIN ts, n \in {0, 1, 3, 4}})
                      IN [x \in DOMAIN ps |-> [e |-> "total", text |-> ts[ps[x][1]], doc |-> Iota(ps[x][2])]]
 
